@@ -96,13 +96,13 @@ type restMeta struct {
 	SrcLen  int      `json:"srclen"`
 }
 type restMsg struct {
-	ID   string `json:"id"`
-	Meta restMeta  `json:"meta"`
-	Size int64  `json:"size"`
-	Seen bool   `json:"seen"`
+	ID   string   `json:"id"`
+	Meta restMeta `json:"meta"`
+	Size int64    `json:"size"`
+	Seen bool     `json:"seen"`
 }
 type restBox struct {
-	Mb   string `json:"mb"`
+	Mb   string    `json:"mb"`
 	Msgs []restMsg `json:"msgs"`
 }
 
